@@ -154,11 +154,22 @@ impl vstd::std_specs::convert::FromSpecImpl<ArrayOwned> for Arr {
     open spec fn from_spec(v: ArrayOwned) -> Arr { Arr { elems: v.elems } }
 }
 impl From<ArrayOwned> for Arr { fn from(v: ArrayOwned) -> (r: Arr) { Arr { elems: v.elems } } }
+// derive_more::From on Variable (`#[from(Array, Arc<Array>)] Array(Arc<Array>)`)
+impl vstd::std_specs::convert::FromSpecImpl<ArrayOwned> for Variable {
+    open spec fn obeys_from_spec() -> bool { true }
+    open spec fn from_spec(v: ArrayOwned) -> Variable { Variable::Array(Arr { elems: v.elems }) }
+}
+impl From<ArrayOwned> for Variable { fn from(v: ArrayOwned) -> (r: Variable) { Variable::Array(Arr { elems: v.elems }) } }
 impl Array {
     /// Array::new_repeat(value, len): `len` copies of `value` (std::iter::repeat_n(..).collect())
     #[verifier::external_body]
     pub fn new_repeat(value: Variable, len: usize) -> (r: ArrayOwned)
         ensures r.elems@.len() == len, forall|i: int| 0 <= i < len ==> r.elems@[i] == value
+    { unimplemented!() }
+    /// Array::new_with_type(element_type, elements): the given elements (the stored element type is not modelled)
+    #[verifier::external_body]
+    pub fn new_with_type(element_type: Type, elements: Arc<[Variable]>) -> (r: ArrayOwned)
+        ensures r.elems@ == elements@
     { unimplemented!() }
     #[verifier::external_body]
     pub fn concat(array1: Arr, array2: Arr) -> (r: Arr)
